@@ -1,5 +1,925 @@
-//! Field-level suites (filled in below).
+//! Field-level suites for Fq, Fr, Fp (C10, C11, field half of C09).  One macro
+//! instantiation per field; every operator / method form is one table entry.
+//! Operands are logged as the library's canonical bytes; the conversion events tie
+//! that serialisation to integers chosen here before they enter the library.
+use crate::common::*;
+use rand_chacha::ChaCha20Rng;
+use serde_json::{json, Value};
 use std::io::Write;
-pub fn record(_suite: &str, _n: usize, _seed: u64, _arg: &str, _out: &mut dyn Write) -> bool {
-    false
+
+#[cfg(feature = "ark")]
+use ark_ff::{BigInteger, Field, PrimeField};
+#[cfg(feature = "ark")]
+use ark_serialize::{
+    CanonicalDeserialize, CanonicalDeserializeWithFlags, CanonicalSerialize, CanonicalSerializeWithFlags, EmptyFlags,
+    Flags,
+};
+
+fn hash64<T: std::hash::Hash>(x: &T) -> u64 {
+    use std::hash::Hasher;
+    let mut h = std::collections::hash_map::DefaultHasher::new();
+    x.hash(&mut h);
+    h.finish()
+}
+
+/// interesting integers below / around a modulus, as little-endian bytes of length n8
+fn operand_alphabet(modulus: &[u8]) -> Vec<Vec<u8>> {
+    let n8 = modulus.len();
+    let m = modulus.to_vec();
+    let mut v: Vec<Vec<u8>> = vec![
+        vec![0; n8],
+        le_add_small(&vec![0; n8], 1),
+        le_add_small(&vec![0; n8], 2),
+        le_sub_small(&m, 1),
+        le_sub_small(&m, 2),
+        le_shr1(&le_sub_small(&m, 1)),
+        le_shr1(&le_add_small(&m, 1)),
+    ];
+    let bits = n8 * 8;
+    let mut k = 8;
+    while k < bits - 8 {
+        for kk in [k - 1, k, k + 1] {
+            let p2 = le_pow2(kk, n8);
+            if le_less(&p2, &m) {
+                v.push(p2.clone());
+                v.push(le_sub_small(&p2, 1));
+            }
+        }
+        k += if k % 32 == 0 { 32 } else { 8 };
+        if k % 32 != 0 {
+            k = (k / 32 + 1) * 32;
+        }
+    }
+    // limb patterns
+    for pat in [0xffu8, 0xaa, 0x55, 0x80, 0x01] {
+        let mut x = vec![pat; n8];
+        x[n8 - 1] = 0;
+        v.push(x);
+    }
+    let mut lo32 = vec![0u8; n8];
+    for b in lo32.iter_mut().take(4) {
+        *b = 0xff;
+    }
+    v.push(lo32);
+    let mut lo64 = vec![0u8; n8];
+    for b in lo64.iter_mut().take(8) {
+        *b = 0xff;
+    }
+    v.push(lo64);
+    // R mod p and R^2 mod p style values are reached by random operands; add 2^(8*n8) - p (= R - p)
+    v
+}
+
+fn rand_operand_bytes(r: &mut ChaCha20Rng, modulus: &[u8]) -> Vec<u8> {
+    let n8 = modulus.len();
+    match below(r, 10) {
+        0 | 1 => {
+            let a = operand_alphabet(modulus);
+            a[below(r, a.len())].clone()
+        }
+        2 => {
+            // sparse limb pattern
+            let mut x = vec![0u8; n8];
+            for i in 0..n8 / 4 {
+                let pat = [0x00u8, 0xff, 0x00, 0xff, 0x01, 0x80][below(r, 6)];
+                for j in 0..4 {
+                    x[4 * i + j] = pat;
+                }
+            }
+            x[n8 - 1] = 0;
+            x
+        }
+        _ => {
+            let mut x = rbytes(r, n8 + 16);
+            if below(r, 3) == 0 {
+                x.truncate(n8);
+                x[n8 - 1] &= 0x0f;
+            }
+            x
+        }
+    }
+}
+
+macro_rules! field_suite {
+    ($modname:ident, $F:ty, $name:expr, $n8:expr, $n64:expr, $modulus:expr, $has_select:expr) => {
+        pub mod $modname {
+            use super::*;
+            type F = $F;
+            pub const NAME: &str = $name;
+            pub const N8: usize = $n8;
+            pub fn b(x: &F) -> Vec<u8> {
+                x.to_bytes_le().to_vec()
+            }
+            pub fn of(bytes: &[u8]) -> F {
+                F::from_le_bytes_mod_order(bytes)
+            }
+            type BinF = fn(F, F) -> F;
+            pub const BIN: &[(&str, &str, BinF)] = &[
+                ("add", "a+b", |a, b| a + b),
+                ("add", "a+&b", |a, b| a + &b),
+                ("add", "a+&mut b", |a, mut b| a + &mut b),
+                ("add", "a+=b", |mut a, b| {
+                    a += b;
+                    a
+                }),
+                ("add", "a+=&b", |mut a, b| {
+                    a += &b;
+                    a
+                }),
+                ("add", "a+=&mut b", |mut a, mut b| {
+                    a += &mut b;
+                    a
+                }),
+                ("add", "F::add(a,&b)", |a, b| F::add(a, &b)),
+                ("sub", "a-b", |a, b| a - b),
+                ("sub", "a-&b", |a, b| a - &b),
+                ("sub", "a-&mut b", |a, mut b| a - &mut b),
+                ("sub", "a-=b", |mut a, b| {
+                    a -= b;
+                    a
+                }),
+                ("sub", "a-=&b", |mut a, b| {
+                    a -= &b;
+                    a
+                }),
+                ("sub", "a-=&mut b", |mut a, mut b| {
+                    a -= &mut b;
+                    a
+                }),
+                ("sub", "F::sub(a,&b)", |a, b| F::sub(a, &b)),
+                ("mul", "a*b", |a, b| a * b),
+                ("mul", "a*&b", |a, b| a * &b),
+                ("mul", "a*&mut b", |a, mut b| a * &mut b),
+                ("mul", "a*=b", |mut a, b| {
+                    a *= b;
+                    a
+                }),
+                ("mul", "a*=&b", |mut a, b| {
+                    a *= &b;
+                    a
+                }),
+                ("mul", "a*=&mut b", |mut a, mut b| {
+                    a *= &mut b;
+                    a
+                }),
+                ("mul", "F::mul(a,&b)", |a, b| F::mul(a, &b)),
+                ("div", "a/b", |a, b| a / b),
+                ("div", "a/&b", |a, b| a / &b),
+                ("div", "a/&mut b", |a, mut b| a / &mut b),
+                ("div", "a/=b", |mut a, b| {
+                    a /= b;
+                    a
+                }),
+                ("div", "a/=&b", |mut a, b| {
+                    a /= &b;
+                    a
+                }),
+                ("div", "a/=&mut b", |mut a, mut b| {
+                    a /= &mut b;
+                    a
+                }),
+            ];
+            type UnF = fn(F) -> Option<F>;
+            #[cfg(feature = "ark")]
+            pub const UN: &[(&str, &str, UnF)] = &[
+                ("neg", "-a", |a| Some(-a)),
+                ("neg", "F::neg(a)", |a| Some(F::neg(a))),
+                ("neg", "neg_in_place", |mut a| {
+                    a.neg_in_place();
+                    Some(a)
+                }),
+                ("square", "a.square()", |a| Some(a.square())),
+                ("square", "Field::square", |a| Some(Field::square(&a))),
+                ("square", "square_in_place", |mut a| {
+                    a.square_in_place();
+                    Some(a)
+                }),
+                ("double", "Field::double", |a| Some(Field::double(&a))),
+                ("double", "double_in_place", |mut a| {
+                    a.double_in_place();
+                    Some(a)
+                }),
+                ("inverse", "a.inverse()", |a| a.inverse()),
+                ("inverse", "Field::inverse", |a| Field::inverse(&a)),
+                ("inverse", "inverse_in_place", |mut a| a.inverse_in_place().map(|x| *x)),
+                ("id", "frobenius_map", |a| Some(a.frobenius_map(3))),
+                ("id", "from_base_prime_field", |a| Some(F::from_base_prime_field(a))),
+                ("id", "from_base_prime_field_elems", |a| F::from_base_prime_field_elems(&[a])),
+                ("id", "clone", |a| Some(a.clone())),
+            ];
+            #[cfg(not(feature = "ark"))]
+            pub const UN: &[(&str, &str, UnF)] = &[
+                ("neg", "-a", |a| Some(-a)),
+                ("neg", "F::neg(a)", |a| Some(F::neg(a))),
+                ("square", "a.square()", |a| Some(a.square())),
+                ("inverse", "a.inverse()", |a| a.inverse()),
+                ("id", "clone", |a| Some(a.clone())),
+            ];
+            type FoldF = fn(&[F]) -> F;
+            pub const FOLD: &[(&str, &str, FoldF)] = &[
+                ("sum", "Sum<F>", |v| v.iter().copied().sum()),
+                ("sum", "Sum<&F>", |v| v.iter().sum()),
+                ("product", "Product<F>", |v| v.iter().copied().product()),
+                ("product", "Product<&F>", |v| v.iter().product()),
+            ];
+            type EqF = fn(F, F) -> bool;
+            pub const EQ: &[(&str, EqF)] = &[("a==b", |a, b| a == b), ("!(a!=b)", |a, b| !(a != b))];
+
+            pub fn emit_bin(out: &mut dyn Write, idx: usize, a: F, bb: F) -> Option<F> {
+                let (op, form, f) = BIN[idx % BIN.len()];
+                if op == "div" && bb == F::ZERO {
+                    return None;
+                }
+                let ev = json!({"k":"fbin","field":NAME,"op":op,"form":form,"a":b(&a),"b":b(&bb)});
+                let r = guarded(|| f(a, bb));
+                let res = r.clone().ok();
+                emit(out, finish(ev, r.map(|x| json!({"out":b(&x)}))));
+                res
+            }
+            pub fn emit_un(out: &mut dyn Write, idx: usize, a: F) -> Option<F> {
+                let (op, form, f) = UN[idx % UN.len()];
+                let ev = json!({"k":"fun","field":NAME,"op":op,"form":form,"a":b(&a)});
+                let r = guarded(|| f(a));
+                let res = r.clone().ok().flatten();
+                emit(
+                    out,
+                    finish(
+                        ev,
+                        r.map(|x| match x {
+                            Some(y) => json!({"none":false,"out":b(&y)}),
+                            None => json!({"none":true}),
+                        }),
+                    ),
+                );
+                res
+            }
+            pub fn emit_fold(out: &mut dyn Write, idx: usize, xs: &[F]) {
+                let (op, form, f) = FOLD[idx % FOLD.len()];
+                let xb: Vec<Vec<u8>> = xs.iter().map(b).collect();
+                let ev = json!({"k":"ffold","field":NAME,"op":op,"form":form,"xs":xb});
+                let r = guarded(|| f(xs));
+                emit(out, finish(ev, r.map(|x| json!({"out":b(&x)}))));
+            }
+            pub fn emit_eq(out: &mut dyn Write, idx: usize, a: F, bb: F) {
+                let (form, f) = EQ[idx % EQ.len()];
+                let ev = json!({"k":"feq","field":NAME,"form":form,"a":b(&a),"b":b(&bb)});
+                let r = guarded(|| f(a, bb));
+                emit(out, finish(ev, r.map(|x| json!({"out":x}))));
+            }
+            pub fn emit_from(out: &mut dyn Write, r: &mut ChaCha20Rng) {
+                let w = below(r, 6);
+                let raw = rbytes(r, 16);
+                let mk = |ty: &str, v: Vec<u8>, x: Result<F, String>| {
+                    finish(json!({"k":"ffrom","field":NAME,"ty":ty,"v":v}), x.map(|y| json!({"out":b(&y)})))
+                };
+                let ev = match w {
+                    0 => {
+                        let v = u128::from_le_bytes(raw[..16].try_into().unwrap());
+                        mk("u128", v.to_le_bytes().to_vec(), guarded(|| F::from(v)))
+                    }
+                    1 => {
+                        let v = u64::from_le_bytes(raw[..8].try_into().unwrap());
+                        mk("u64", v.to_le_bytes().to_vec(), guarded(|| F::from(v)))
+                    }
+                    2 => {
+                        let v = u32::from_le_bytes(raw[..4].try_into().unwrap());
+                        mk("u32", v.to_le_bytes().to_vec(), guarded(|| F::from(v)))
+                    }
+                    3 => {
+                        let v = u16::from_le_bytes(raw[..2].try_into().unwrap());
+                        mk("u16", v.to_le_bytes().to_vec(), guarded(|| F::from(v)))
+                    }
+                    4 => {
+                        let v = raw[0];
+                        mk("u8", vec![v], guarded(|| F::from(v)))
+                    }
+                    _ => {
+                        let v = raw[0] & 1 == 1;
+                        mk("bool", vec![v as u8], guarded(|| F::from(v)))
+                    }
+                };
+                emit(out, ev);
+            }
+            #[cfg(feature = "ark")]
+            pub fn emit_pow(out: &mut dyn Write, a: F, limbs: &[u64]) {
+                let ev = json!({"k":"fpow","field":NAME,"form":"Field::pow","a":b(&a),"e":limbs_to_bytes(limbs)});
+                let r = guarded(|| a.pow(limbs));
+                emit(out, finish(ev, r.map(|x| json!({"out":b(&x)}))));
+            }
+            #[cfg(not(feature = "ark"))]
+            pub fn emit_pow(_out: &mut dyn Write, _a: F, _limbs: &[u64]) {}
+            pub fn emit_cmp(out: &mut dyn Write, a: F, bb: F) {
+                let ev = json!({"k":"fcmp","field":NAME,"a":b(&a),"b":b(&bb)});
+                let r = guarded(|| match a.cmp(&bb) {
+                    std::cmp::Ordering::Less => -1,
+                    std::cmp::Ordering::Equal => 0,
+                    std::cmp::Ordering::Greater => 1,
+                });
+                let r2 = guarded(|| (a < bb, a <= bb, a > bb, a >= bb, a.partial_cmp(&bb)));
+                let consistent = match (&r, &r2) {
+                    (Ok(c), Ok((lt, le, gt, ge, pc))) => {
+                        *lt == (*c < 0) && *le == (*c <= 0) && *gt == (*c > 0) && *ge == (*c >= 0) && pc.is_some()
+                    }
+                    _ => false,
+                };
+                let mut e = finish(ev, r.map(|x| json!({"out":x})));
+                if !consistent {
+                    e["panic"] = json!("comparison operators inconsistent with cmp");
+                }
+                emit(out, e);
+            }
+            pub fn emit_hash(out: &mut dyn Write, a: F) {
+                let ev = json!({"k":"fhash","field":NAME,"a":b(&a)});
+                let r = guarded(|| hash64(&a));
+                emit(out, finish(ev, r.map(|h| json!({"h":h.to_le_bytes().to_vec()}))));
+            }
+
+            // ---- C11: serialisation of a harness-chosen integer v (< p, canonical n8 bytes)
+            type SerF = fn(F) -> Vec<u8>;
+            #[cfg(feature = "ark")]
+            pub const SER: &[(&str, SerF)] = &[
+                ("to_bytes_le", |x| x.to_bytes_le().to_vec()),
+                ("to_bytes", |x| x.to_bytes().to_vec()),
+                ("serialize_compressed", |x| {
+                    let mut v = Vec::new();
+                    x.serialize_compressed(&mut v).unwrap();
+                    v
+                }),
+                ("serialize_uncompressed", |x| {
+                    let mut v = Vec::new();
+                    x.serialize_uncompressed(&mut v).unwrap();
+                    v
+                }),
+                ("serialize_with_flags<Empty>", |x| {
+                    let mut v = Vec::new();
+                    x.serialize_with_flags(&mut v, EmptyFlags).unwrap();
+                    v
+                }),
+                ("into_bigint().to_bytes_le", |x| x.into_bigint().to_bytes_le()),
+                ("into_bigint().to_bytes_be reversed", |x| {
+                    let mut v = x.into_bigint().to_bytes_be();
+                    v.reverse();
+                    v
+                }),
+                ("BigInt::from(F)", |x| {
+                    let bi: <F as PrimeField>::BigInt = x.into();
+                    bi.to_bytes_le()
+                }),
+                ("BigUint::from(F)", |x| {
+                    let bu: num_bigint::BigUint = x.into();
+                    let mut v = bu.to_bytes_le();
+                    v.resize(N8, 0);
+                    v
+                }),
+                ("Debug hex", |x| {
+                    // "Fq(0x<big-endian hex>)"
+                    let s = format!("{:?}", x);
+                    let a = s.find("0x").map(|i| i + 2).unwrap_or(0);
+                    let h = &s[a..s.len() - 1];
+                    let mut v: Vec<u8> =
+                        (0..h.len() / 2).map(|i| u8::from_str_radix(&h[2 * i..2 * i + 2], 16).unwrap_or(0)).collect();
+                    v.reverse();
+                    v
+                }),
+                ("to_base_prime_field_elements", |x| x.to_base_prime_field_elements().next().unwrap().to_bytes_le().to_vec()),
+            ];
+            #[cfg(not(feature = "ark"))]
+            pub const SER: &[(&str, SerF)] = &[
+                ("to_bytes_le", |x| x.to_bytes_le().to_vec()),
+                ("to_bytes", |x| x.to_bytes().to_vec()),
+                ("Debug hex", |x| {
+                    let s = format!("{:?}", x);
+                    let a = s.find("0x").map(|i| i + 2).unwrap_or(0);
+                    let h = &s[a..s.len() - 1];
+                    let mut v: Vec<u8> =
+                        (0..h.len() / 2).map(|i| u8::from_str_radix(&h[2 * i..2 * i + 2], 16).unwrap_or(0)).collect();
+                    v.reverse();
+                    v
+                }),
+            ];
+            /// constructors from a canonical n8-byte integer
+            type CtorF = fn(&[u8]) -> F;
+            #[cfg(feature = "ark")]
+            pub const CTOR: &[(&str, CtorF)] = &[
+                ("from_le_bytes_mod_order", |v| F::from_le_bytes_mod_order(v)),
+                ("from_bytes_checked", |v| F::from_bytes_checked(v.try_into().unwrap()).unwrap()),
+                ("deserialize_compressed", |v| F::deserialize_compressed(v).unwrap()),
+                ("from_bigint", |v| {
+                    let mut l = [0u64; $n64];
+                    for (i, c) in v.chunks(8).enumerate() {
+                        l[i] = u64::from_le_bytes(c.try_into().unwrap());
+                    }
+                    F::from_bigint(ark_ff::BigInt(l)).unwrap()
+                }),
+                ("From<BigInt>", |v| {
+                    let mut l = [0u64; $n64];
+                    for (i, c) in v.chunks(8).enumerate() {
+                        l[i] = u64::from_le_bytes(c.try_into().unwrap());
+                    }
+                    F::from(ark_ff::BigInt(l))
+                }),
+                ("From<BigUint>", |v| F::from(num_bigint::BigUint::from_bytes_le(v))),
+                ("PrimeField::from_le_bytes_mod_order", |v| <F as PrimeField>::from_le_bytes_mod_order(v)),
+                ("from_random_bytes", |v| <F as Field>::from_random_bytes(v).unwrap()),
+            ];
+            #[cfg(not(feature = "ark"))]
+            pub const CTOR: &[(&str, CtorF)] = &[
+                ("from_le_bytes_mod_order", |v| F::from_le_bytes_mod_order(v)),
+                ("from_bytes_checked", |v| F::from_bytes_checked(v.try_into().unwrap()).unwrap()),
+            ];
+            pub fn emit_ser(out: &mut dyn Write, ci: usize, si: usize, v: &[u8]) {
+                let (cname, c) = CTOR[ci % CTOR.len()];
+                let (sname, s) = SER[si % SER.len()];
+                let ev = json!({"k":"fser","field":NAME,"form":format!("{} -> {}", cname, sname),"v":v});
+                let r = guarded(|| s(c(v)));
+                emit(out, finish(ev, r.map(|x| json!({"out":x}))));
+            }
+            /// checked parsers of exactly n8 bytes (any value) and of other lengths where the API allows
+            type ParseF = fn(&[u8]) -> Option<F>;
+            #[cfg(feature = "ark")]
+            pub const PARSE: &[(&str, ParseF)] = &[
+                ("from_bytes_checked", |v| F::from_bytes_checked(v.try_into().ok()?).ok()),
+                ("deserialize_compressed", |v| if v.len() == N8 { F::deserialize_compressed(v).ok() } else { None }),
+                ("deserialize_uncompressed", |v| if v.len() == N8 { F::deserialize_uncompressed(v).ok() } else { None }),
+                ("deserialize_compressed_unchecked", |v| {
+                    if v.len() == N8 {
+                        F::deserialize_compressed_unchecked(v).ok()
+                    } else {
+                        None
+                    }
+                }),
+                ("from_bigint", |v| {
+                    if v.len() != N8 {
+                        return None;
+                    }
+                    let mut l = [0u64; $n64];
+                    for (i, c) in v.chunks(8).enumerate() {
+                        l[i] = u64::from_le_bytes(c.try_into().unwrap());
+                    }
+                    F::from_bigint(ark_ff::BigInt(l))
+                }),
+            ];
+            #[cfg(not(feature = "ark"))]
+            pub const PARSE: &[(&str, ParseF)] =
+                &[("from_bytes_checked", |v| F::from_bytes_checked(v.try_into().ok()?).ok())];
+            pub fn emit_parse(out: &mut dyn Write, pi: usize, v: &[u8]) {
+                let (pname, p) = PARSE[pi % PARSE.len()];
+                let ev = json!({"k":"fparse","field":NAME,"form":pname,"b":v});
+                let r = guarded(|| p(v));
+                emit(
+                    out,
+                    finish(
+                        ev,
+                        r.map(|x| match x {
+                            Some(y) => json!({"ok":true,"out":b(&y)}),
+                            None => json!({"ok":false,"out":Vec::<u8>::new()}),
+                        }),
+                    ),
+                );
+            }
+            type RedF = fn(&[u8]) -> F;
+            #[cfg(feature = "ark")]
+            pub const REDUCE: &[(&str, &str, RedF)] = &[
+                ("from_le_bytes_mod_order", "le", |v| F::from_le_bytes_mod_order(v)),
+                ("PrimeField::from_le_bytes_mod_order", "le", |v| <F as PrimeField>::from_le_bytes_mod_order(v)),
+                ("PrimeField::from_be_bytes_mod_order", "be", |v| <F as PrimeField>::from_be_bytes_mod_order(v)),
+                ("From<BigUint>", "le", |v| F::from(num_bigint::BigUint::from_bytes_le(v))),
+                ("from_random_bytes", "le", |v| <F as Field>::from_random_bytes(v).unwrap()),
+            ];
+            #[cfg(not(feature = "ark"))]
+            pub const REDUCE: &[(&str, &str, RedF)] = &[("from_le_bytes_mod_order", "le", |v| F::from_le_bytes_mod_order(v))];
+            pub fn emit_reduce(out: &mut dyn Write, ri: usize, v: &[u8]) {
+                let (name, endian, f) = REDUCE[ri % REDUCE.len()];
+                let ev = json!({"k":"freduce","field":NAME,"form":name,"endian":endian,"b":v});
+                let r = guarded(|| f(v));
+                emit(out, finish(ev, r.map(|x| json!({"out":b(&x)}))));
+            }
+            #[cfg(feature = "ark")]
+            pub fn emit_flags(out: &mut dyn Write, r: &mut ChaCha20Rng, a: F) {
+                use ark_ec::models::short_weierstrass::SWFlags;
+                use ark_ec::models::twisted_edwards::TEFlags;
+                fn ser<Fl: Flags>(a: F, fl: Fl) -> Vec<u8> {
+                    let mut v = Vec::new();
+                    a.serialize_with_flags(&mut v, fl).unwrap();
+                    v
+                }
+                fn de<Fl: Flags>(v: &[u8]) -> Value {
+                    match F::deserialize_with_flags::<_, Fl>(v) {
+                        Ok((x, fl)) => json!({"ok":true,"err":"","out":b(&x),"mask":fl.u8_bitmask()}),
+                        Err(ark_serialize::SerializationError::UnexpectedFlags) => json!({"ok":false,"err":"UnexpectedFlags"}),
+                        Err(ark_serialize::SerializationError::InvalidData) => json!({"ok":false,"err":"InvalidData"}),
+                        Err(_) => json!({"ok":false,"err":"Other"}),
+                    }
+                }
+                let w = below(r, 6);
+                let (ty, mask, bytes) = match w {
+                    0 => ("Empty", 0u8, guarded(|| ser(a, EmptyFlags))),
+                    1 => ("TE", 0, guarded(|| ser(a, TEFlags::XIsPositive))),
+                    2 => ("TE", 128, guarded(|| ser(a, TEFlags::XIsNegative))),
+                    3 => ("SW", 0, guarded(|| ser(a, SWFlags::YIsPositive))),
+                    4 => ("SW", 128, guarded(|| ser(a, SWFlags::YIsNegative))),
+                    _ => ("SW", 64, guarded(|| ser(a, SWFlags::PointAtInfinity))),
+                };
+                let ev = json!({"k":"fserflags","field":NAME,"ty":ty,"a":b(&a),"mask":mask});
+                let bytes2 = bytes.clone().unwrap_or_default();
+                emit(out, finish(ev, bytes.map(|x| json!({"out":x}))));
+                // deserialise what was written, and mutated versions (arbitrary top bits, non-canonical)
+                if bytes2.len() == N8 {
+                    let mut cands = vec![bytes2.clone()];
+                    let mut m = bytes2.clone();
+                    m[N8 - 1] ^= 1 << (below(r, 8));
+                    cands.push(m);
+                    let mut m2 = rbytes(r, N8);
+                    if below(r, 2) == 0 {
+                        m2[N8 - 1] |= 0xc0;
+                    }
+                    cands.push(m2);
+                    for c in cands {
+                        let ev = json!({"k":"fdeserflags","field":NAME,"ty":ty,"b":c});
+                        let rr = guarded(|| match ty {
+                            "Empty" => de::<EmptyFlags>(&c),
+                            "TE" => de::<TEFlags>(&c),
+                            _ => de::<SWFlags>(&c),
+                        });
+                        emit(out, finish(ev, rr));
+                    }
+                }
+            }
+            #[cfg(not(feature = "ark"))]
+            pub fn emit_flags(_out: &mut dyn Write, _r: &mut ChaCha20Rng, _a: F) {}
+            #[cfg(feature = "ark")]
+            pub fn emit_str(out: &mut dyn Write, r: &mut ChaCha20Rng, a: F) {
+                use std::str::FromStr;
+                let ev = json!({"k":"fdisplay","field":NAME,"a":b(&a)});
+                let rr = guarded(|| format!("{}", a));
+                emit(
+                    out,
+                    finish(ev, rr.map(|s| json!({"ds": s.bytes().map(|c| (c as i64) - 48).collect::<Vec<i64>>()}))),
+                );
+                // FromStr on a random digit string (possibly above p, possibly with leading zeros)
+                let nd = below(r, 125);
+                let ds: Vec<u8> = (0..nd).map(|_| below(r, 10) as u8).collect();
+                let s: String = ds.iter().map(|d| (b'0' + d) as char).collect();
+                let ev = json!({"k":"ffromstr","field":NAME,"ds":ds});
+                let rr = guarded(|| F::from_str(&s));
+                emit(
+                    out,
+                    finish(
+                        ev,
+                        rr.and_then(|x| x.map_err(|_| "from_str rejected a digit string".to_string())).map(|x| json!({"out":b(&x)})),
+                    ),
+                );
+            }
+            #[cfg(not(feature = "ark"))]
+            pub fn emit_str(_out: &mut dyn Write, _r: &mut ChaCha20Rng, _a: F) {}
+            #[cfg(feature = "ark")]
+            pub fn emit_sqrt(out: &mut dyn Write, a: F) {
+                let ev = json!({"k":"flegendre","field":NAME,"a":b(&a)});
+                let rr = guarded(|| match a.legendre() {
+                    ark_ff::LegendreSymbol::Zero => 0,
+                    ark_ff::LegendreSymbol::QuadraticResidue => 1,
+                    ark_ff::LegendreSymbol::QuadraticNonResidue => -1,
+                });
+                emit(out, finish(ev, rr.map(|x| json!({"out":x}))));
+                let ev = json!({"k":"fsqrt","field":NAME,"a":b(&a)});
+                let rr = guarded(|| a.sqrt());
+                emit(
+                    out,
+                    finish(
+                        ev,
+                        rr.map(|x| match x {
+                            Some(y) => json!({"some":true,"y":b(&y)}),
+                            None => json!({"some":false,"y":Vec::<u8>::new()}),
+                        }),
+                    ),
+                );
+            }
+            #[cfg(not(feature = "ark"))]
+            pub fn emit_sqrt(_out: &mut dyn Write, _a: F) {}
+
+            pub fn operands(r: &mut ChaCha20Rng) -> F {
+                of(&rand_operand_bytes(r, &$modulus))
+            }
+
+            /// arithmetic: every form x alphabet pairs (structured), then random chained operations
+            pub fn arith(out: &mut dyn Write, r: &mut ChaCha20Rng, n: usize, structured: bool) {
+                emit(out, json!({"k":"reset","build":BUILD}));
+                if structured {
+                    let al: Vec<F> = operand_alphabet(&$modulus).iter().map(|x| of(x)).collect();
+                    let mut cnt = 0usize;
+                    for i in 0..BIN.len() {
+                        // every form on a rotating selection of alphabet pairs
+                        for j in 0..al.len() {
+                            cnt += 1;
+                            let a = al[j];
+                            let bb = al[(j * 7 + i * 3 + cnt) % al.len()];
+                            emit_bin(out, i, a, bb);
+                        }
+                        emit(out, json!({"k":"reset","build":BUILD}));
+                    }
+                    for i in 0..UN.len() {
+                        for a in al.iter() {
+                            emit_un(out, i, *a);
+                        }
+                    }
+                    emit(out, json!({"k":"reset","build":BUILD}));
+                    for i in 0..FOLD.len() {
+                        for xs in [vec![], vec![al[2]], vec![al[2], al[3]], vec![al[1], al[2], al[3], al[4], al[5]], vec![al[0], al[3]]] {
+                            emit_fold(out, i, &xs);
+                        }
+                    }
+                    for a in al.iter().take(12) {
+                        for bb in al.iter().take(12) {
+                            cnt += 1;
+                            emit_eq(out, cnt, *a, *bb);
+                        }
+                    }
+                }
+                let mut pool: Vec<F> = (0..8).map(|_| operands(r)).collect();
+                let mut ctr = 0usize;
+                for i in 0..n {
+                    if i % 200 == 199 {
+                        emit(out, json!({"k":"reset","build":BUILD}));
+                    }
+                    ctr += 1;
+                    let a = pool[below(r, pool.len())];
+                    let bb = if below(r, 8) == 0 { a } else { pool[below(r, pool.len())] };
+                    let slot = below(r, pool.len());
+                    match below(r, 100) {
+                        0..=59 => {
+                            if let Some(x) = emit_bin(out, ctr, a, bb) {
+                                pool[slot] = x;
+                            }
+                        }
+                        60..=74 => {
+                            if let Some(x) = emit_un(out, ctr, a) {
+                                pool[slot] = x;
+                            }
+                        }
+                        75..=79 => {
+                            let k = below(r, 6);
+                            let xs: Vec<F> = (0..k).map(|_| pool[below(r, 8)]).collect();
+                            emit_fold(out, ctr, &xs);
+                        }
+                        80..=84 => emit_eq(out, ctr, a, bb),
+                        85..=89 => emit_from(out, r),
+                        90..=93 => {
+                            let nl = 1 + below(r, $n64 + 1);
+                            let limbs: Vec<u64> = (0..nl)
+                                .map(|_| match below(r, 4) {
+                                    0 => 0,
+                                    1 => u64::MAX,
+                                    2 => below(r, 5) as u64,
+                                    _ => u64::from_le_bytes(rbytes(r, 8).try_into().unwrap()),
+                                })
+                                .collect();
+                            emit_pow(out, a, &limbs);
+                        }
+                        _ => pool[slot] = operands(r),
+                    }
+                }
+            }
+            /// conversions and encodings
+            pub fn conv(out: &mut dyn Write, r: &mut ChaCha20Rng, n: usize, structured: bool) {
+                emit(out, json!({"k":"reset","build":BUILD}));
+                let m = $modulus.to_vec();
+                let mut ctr = 0usize;
+                if structured {
+                    // canonical values through every constructor x serialiser pair
+                    let al = operand_alphabet(&m);
+                    for (j, v) in al.iter().enumerate() {
+                        for ci in 0..CTOR.len() {
+                            emit_ser(out, ci, j + ci, v);
+                        }
+                        for si in 0..SER.len() {
+                            emit_ser(out, j + si, si, v);
+                        }
+                    }
+                    emit(out, json!({"k":"reset","build":BUILD}));
+                    // parsing: p-1, p, p+1, 2^k, all-ones, wrong lengths
+                    let mut cands: Vec<Vec<u8>> = vec![
+                        le_sub_small(&m, 1),
+                        m.clone(),
+                        le_add_small(&m, 1),
+                        le_add_small(&m, 2),
+                        vec![0xff; N8],
+                        vec![0; N8],
+                        le_pow2(N8 * 8 - 1, N8),
+                        le_pow2(N8 * 8 - 2, N8),
+                        le_pow2(N8 * 8 - 3, N8),
+                        le_pow2(N8 * 8 - 4, N8),
+                        le_pow2(N8 * 8 - 5, N8),
+                        le_pow2(N8 * 8 - 6, N8),
+                        le_pow2(N8 * 8 - 7, N8),
+                        le_pow2(N8 * 8 - 8, N8),
+                        le_add(&m, &m)[..N8].to_vec(),
+                    ];
+                    for v in al.iter().take(10) {
+                        cands.push(v.clone());
+                    }
+                    for c in cands.iter() {
+                        for pi in 0..PARSE.len() {
+                            emit_parse(out, pi, c);
+                        }
+                    }
+                    for len in [0usize, 1, N8 - 1, N8 + 1, 2 * N8] {
+                        emit_parse(out, 0, &vec![1u8; len]);
+                    }
+                    emit(out, json!({"k":"reset","build":BUILD}));
+                    // reduction of every length 0..=200
+                    for len in 0..=200usize {
+                        let v = match len % 4 {
+                            0 => vec![0xffu8; len],
+                            1 => rbytes(r, len),
+                            2 => {
+                                let mut x = vec![0u8; len];
+                                if len > 0 {
+                                    x[len - 1] = 1;
+                                }
+                                x
+                            }
+                            _ => {
+                                let mut x = m.clone();
+                                x.resize(len.max(N8), 0);
+                                x.truncate(len);
+                                x
+                            }
+                        };
+                        for ri in 0..REDUCE.len() {
+                            emit_reduce(out, ri, &v);
+                        }
+                    }
+                    for k in 1..=4usize {
+                        // p, p-1, p+1 placed in every chunk position
+                        for delta in [0i32, -1, 1] {
+                            let base = if delta == 0 {
+                                m.clone()
+                            } else if delta < 0 {
+                                le_sub_small(&m, 1)
+                            } else {
+                                le_add_small(&m, 1)
+                            };
+                            let mut v = vec![0u8; N8 * (k - 1)];
+                            v.extend_from_slice(&base);
+                            for ri in 0..REDUCE.len() {
+                                emit_reduce(out, ri, &v);
+                            }
+                        }
+                    }
+                }
+                for i in 0..n {
+                    if i % 200 == 199 {
+                        emit(out, json!({"k":"reset","build":BUILD}));
+                    }
+                    ctr += 1;
+                    match below(r, 100) {
+                        0..=19 => {
+                            let mut v = rand_operand_bytes(r, &m);
+                            v.truncate(N8);
+                            v.resize(N8, 0);
+                            if !le_less(&v, &m) {
+                                v = le_sub(&v, &m);
+                                if !le_less(&v, &m) {
+                                    v[N8 - 1] = 0;
+                                }
+                            }
+                            let si = below(r, SER.len());
+                            emit_ser(out, ctr, si, &v);
+                        }
+                        20..=34 => {
+                            let mut v = rbytes(r, N8);
+                            match below(r, 4) {
+                                0 => v[N8 - 1] &= 0x1f,
+                                1 => {
+                                    v = le_add_small(&m, below(r, 1000) as u32)[..N8].to_vec();
+                                }
+                                2 => {
+                                    v = le_sub_small(&m, 1 + below(r, 1000) as u32);
+                                }
+                                _ => {}
+                            }
+                            emit_parse(out, ctr, &v);
+                        }
+                        35..=54 => {
+                            let len = below(r, 201);
+                            let v = rbytes(r, len);
+                            emit_reduce(out, ctr, &v);
+                        }
+                        55..=69 => {
+                            let a = operands(r);
+                            emit_flags(out, r, a);
+                        }
+                        70..=79 => {
+                            let a = operands(r);
+                            emit_str(out, r, a);
+                        }
+                        80..=89 => {
+                            let a = operands(r);
+                            let bb = if below(r, 5) == 0 { a } else { operands(r) };
+                            emit_cmp(out, a, bb);
+                        }
+                        _ => {
+                            let v = rand_operand_bytes(r, &m);
+                            let a = of(&v);
+                            emit_hash(out, a);
+                            // the same value reached another way must hash equally
+                            let a2 = a + F::ONE - F::ONE;
+                            emit_hash(out, a2);
+                        }
+                    }
+                }
+            }
+            pub fn sqrt(out: &mut dyn Write, r: &mut ChaCha20Rng, n: usize) {
+                emit(out, json!({"k":"reset","build":BUILD}));
+                let al: Vec<F> = operand_alphabet(&$modulus).iter().map(|x| of(x)).collect();
+                for a in al.iter().take(16) {
+                    emit_sqrt(out, *a);
+                    emit_sqrt(out, a.square());
+                }
+                for i in 0..n {
+                    if i % 100 == 99 {
+                        emit(out, json!({"k":"reset","build":BUILD}));
+                    }
+                    let a = operands(r);
+                    emit_sqrt(out, if i % 2 == 0 { a } else { a.square() });
+                }
+            }
+        }
+    };
+}
+
+field_suite!(fq, decaf377::Fq, "Fq", 32, 4, Q_LE, true);
+field_suite!(fr, decaf377::Fr, "Fr", 32, 4, R_LE, false);
+field_suite!(fp, decaf377::Fp, "Fp", 48, 6, P_LE, false);
+
+/// Fq-only forms: constant-time selection / equality, `power`
+fn fq_extra(out: &mut dyn Write, r: &mut ChaCha20Rng, n: usize) {
+    use decaf377::Fq;
+    use subtle::{ConditionallySelectable, ConstantTimeEq};
+    emit(out, json!({"k":"reset","build":BUILD}));
+    let al: Vec<Fq> = operand_alphabet(&Q_LE).iter().map(|x| fq::of(x)).collect();
+    let mut pairs: Vec<(Fq, Fq)> = Vec::new();
+    for i in 0..al.len().min(10) {
+        for j in 0..al.len().min(10) {
+            pairs.push((al[i], al[j]));
+        }
+    }
+    for _ in 0..n {
+        let a = fq::operands(r);
+        let b = if below(r, 4) == 0 { a } else { fq::operands(r) };
+        pairs.push((a, b));
+    }
+    for (i, (a, b)) in pairs.iter().enumerate() {
+        if i % 200 == 199 {
+            emit(out, json!({"k":"reset","build":BUILD}));
+        }
+        for choice in [0u8, 1] {
+            let ev = json!({"k":"fsel","field":"Fq","form":"conditional_select","a":fq::b(a),"b":fq::b(b),"choice":choice});
+            let rr = guarded(|| Fq::conditional_select(a, b, choice.into()));
+            emit(out, finish(ev, rr.map(|x| json!({"out":fq::b(&x)}))));
+        }
+        let ev = json!({"k":"feq","field":"Fq","form":"ct_eq","a":fq::b(a),"b":fq::b(b)});
+        let rr = guarded(|| bool::from(a.ct_eq(b)));
+        emit(out, finish(ev, rr.map(|x| json!({"out":x}))));
+        // a value and the same value reached by arithmetic must be ct_eq
+        let a2 = *a + *b - *b;
+        let ev = json!({"k":"feq","field":"Fq","form":"ct_eq","a":fq::b(a),"b":fq::b(&a2)});
+        let rr = guarded(|| bool::from(a.ct_eq(&a2)));
+        emit(out, finish(ev, rr.map(|x| json!({"out":x}))));
+        // power: exponents with a small low limb (the call is O(low limb) on the pinned tree)
+        if i % 3 == 0 {
+            let nl = 1 + below(r, 5);
+            let mut limbs: Vec<u64> = (0..nl)
+                .map(|_| match below(r, 3) {
+                    0 => below(r, 3) as u64,
+                    1 => u64::MAX,
+                    _ => u64::from_le_bytes(rbytes(r, 8).try_into().unwrap()),
+                })
+                .collect();
+            // the low limb stays small: a linear-time `power` (as on the pinned tree) must still terminate
+            limbs[0] = below(r, 4096) as u64;
+            let ev = json!({"k":"fpow","field":"Fq","form":"power","a":fq::b(a),"e":limbs_to_bytes(&limbs)});
+            let rr = guarded(|| a.power(&limbs));
+            emit(out, finish(ev, rr.map(|x| json!({"out":fq::b(&x)}))));
+        }
+    }
+}
+
+pub fn record(suite: &str, n: usize, seed: u64, arg: &str, out: &mut dyn Write) -> bool {
+    let mut r = rng(seed, suite);
+    let structured = arg != "random";
+    match suite {
+        "farith_Fq" => fq::arith(out, &mut r, n, structured),
+        "farith_Fr" => fr::arith(out, &mut r, n, structured),
+        "farith_Fp" => fp::arith(out, &mut r, n, structured),
+        "fconv_Fq" => fq::conv(out, &mut r, n, structured),
+        "fconv_Fr" => fr::conv(out, &mut r, n, structured),
+        "fconv_Fp" => fp::conv(out, &mut r, n, structured),
+        "fsqrt_Fq" => fq::sqrt(out, &mut r, n),
+        "fsqrt_Fr" => fr::sqrt(out, &mut r, n),
+        "fsqrt_Fp" => fp::sqrt(out, &mut r, n),
+        "fqextra" => fq_extra(out, &mut r, n),
+        _ => return false,
+    }
+    true
 }
